@@ -10,6 +10,7 @@ Model of `_reduce.get_multiplier_sequence`, `zoomify_cooler` (at the level of st
   choice): every non-base level has an earlier predecessor with `resn[pred] · mult = resn`
 * `zoomLevels`/`zoomify`  — copy the base levels, then in ascending order coarsen every non-base level
   from the level of its predecessor with `Coarsen.coarsen` (base levels are never recomputed, D19)
+* `MFile`, `zoomifyOps`, `zoomifyFile` — the output FILE across runs on one path: truncate, then one put per level
 * `preferredSequence`, `expandToken`, `expandResolutionSpec` — the CLI
 -/
 namespace Cooler.Zoomify
